@@ -31,6 +31,37 @@ static void junk(int kind) {   // unrelated work between runs: allocations of as
     for (int i = 0; i < 200; i++) { size_t sz = 16 + ((i * 37 + kind * 11) % 23) * 16; char *p = new char[sz]; p[0] = (char)i; if ((i + kind) % 3) keep.push_back(p); else delete[] p; }
     for (size_t i = 0; i < keep.size(); i += 2) delete[] keep[i];   // the rest is deliberately left allocated for the duration of the case
 }
+
+// "irrespective of what was ... COMPUTED in between": unrelated, complete pieces of library work (each uses only documented calls and
+// leaves nothing behind that a caller is told to clean up); the case is run, the work is done, the case is run again
+static const int NWORK = 6;
+static const char *WORKNAME[NWORK] = {"ConstrainedFDLayout with overlap avoidance: makeFeasible+run", "removeoverlaps with a fixed set and third pass", "orthogonal Router transaction with nudging", "vpsc::IncSolver solve", "doHOLA on a small graph", "ConstrainedFDLayout::makeFeasible(2,3) with clusters"};
+static void library_work(int kind) {
+    if (kind == 0 || kind == 5) {
+        vpsc::Rectangles rs; double px[4] = {0, 8, 30, 12}, py[4] = {0, 5, 0, 28}; for (int i = 0; i < 4; i++) rs.push_back(new vpsc::Rectangle(px[i] - 10, px[i] + 10, py[i] - 10, py[i] + 10));
+        vector<cola::Edge> es = {cola::Edge(0, 1), cola::Edge(1, 2), cola::Edge(2, 3)}; cola::CompoundConstraints ccs; ccs.push_back(new cola::SeparationConstraint(vpsc::XDIM, 0, 2, 25));
+        { cola::ConstrainedFDLayout alg(rs, es, 30); alg.setConstraints(ccs); alg.setAvoidNodeOverlaps(true); cola::RootCluster *root = nullptr;
+          if (kind == 5) { root = new cola::RootCluster(); cola::RectangularCluster *a = new cola::RectangularCluster(); a->addChildNode(0); a->addChildNode(1); a->setPadding(cola::Box(3)); root->addChildCluster(a); alg.setClusterHierarchy(root); alg.makeFeasible(2, 3); }
+          else { alg.makeFeasible(); alg.run(); }
+          delete root; }
+        for (auto r : rs) delete r; for (auto c : ccs) delete c;
+    } else if (kind == 1) {
+        vpsc::Rectangles rs; double q[5][4] = {{0, 20, 0, 20}, {5, 25, 5, 25}, {10, 40, 0, 10}, {0, 10, 15, 45}, {18, 22, 18, 22}}; for (auto &r : q) rs.push_back(new vpsc::Rectangle(r[0], r[1], r[2], r[3]));
+        std::set<unsigned> fixed{0}; vpsc::removeoverlaps(rs, fixed, true); for (auto r : rs) delete r;
+    } else if (kind == 2) {
+        Avoid::Router *r = new Avoid::Router(Avoid::OrthogonalRouting); r->setRoutingParameter(Avoid::segmentPenalty, 30); r->setRoutingParameter(Avoid::crossingPenalty, 40);
+        Avoid::Rectangle a(Avoid::Point(10, 0), Avoid::Point(30, 60)), b(Avoid::Point(50, 20), Avoid::Point(70, 90)); new Avoid::ShapeRef(r, a); new Avoid::ShapeRef(r, b);
+        new Avoid::ConnRef(r, Avoid::ConnEnd(Avoid::Point(0, 30)), Avoid::ConnEnd(Avoid::Point(80, 35))); new Avoid::ConnRef(r, Avoid::ConnEnd(Avoid::Point(0, 40)), Avoid::ConnEnd(Avoid::Point(80, 45))); new Avoid::ConnRef(r, Avoid::ConnEnd(Avoid::Point(40, 0)), Avoid::ConnEnd(Avoid::Point(40, 100)));
+        r->processTransaction(); delete r;
+    } else if (kind == 3) {
+        vpsc::Variables vs; for (int i = 0; i < 4; i++) vs.push_back(new vpsc::Variable(i, i % 2 ? 3 : 0, 1 + i)); vpsc::Constraints cs; cs.push_back(new vpsc::Constraint(vs[0], vs[1], 2)); cs.push_back(new vpsc::Constraint(vs[1], vs[2], 2)); cs.push_back(new vpsc::Constraint(vs[3], vs[2], 1, true));
+        { vpsc::IncSolver sol(vs, cs); sol.solve(); } for (auto c : cs) delete c; for (auto v : vs) delete v;
+    } else {
+        std::string t = "0 0 0 30 30\n1 80 0 30 30\n2 80 80 30 30\n3 0 80 30 30\n4 160 0 30 30\n#\n0 1\n1 2\n2 3\n3 0\n1 4\n"; dialect::Graph_SP g = dialect::buildGraphFromTglf(t); dialect::HolaOpts o; dialect::doHOLA(*g, o);
+    }
+}
+static bool g_interleave = false;   // also run: the case, unrelated library work, the case again
+static void across_library_work(const string &desc, double tol, function<void(Sig &)> f);
 // run f under every schedule; compare signatures.  tol==0 -> bit-identical
 static void under_schedules(const string &desc, const char *clause, double tol, const vector<string> &kc, function<void(Sig &)> f) {
     static Sig sigs[4];
@@ -42,8 +73,24 @@ static void under_schedules(const string &desc, const char *clause, double tol, 
         for (int i = 0; i < sigs[0].n && !diff; i++) { double a = sigs[0].v[i], b = sigs[s].v[i]; if (tol == 0 ? (memcmp(&a, &b, sizeof a) != 0 && !(a == b)) : !(fabs(a - b) <= tol)) { diff = true; at = i; } }
         if (diff) { ctx.violation(clause, kc, desc, at >= 0 ? mcx::fmt("schedule %s vs %s: value #%d %.17g vs %.17g (of %d)", SCHED[0].name, SCHED[s].name, at, sigs[0].v[at], sigs[s].v[at], sigs[0].n) : mcx::fmt("different result sizes %d vs %d", sigs[0].n, sigs[s].n)); break; }
     }
+    if (g_interleave) across_library_work(desc, tol, f);
 }
 static void plain(function<void(Sig &)> f, Sig &s) { s.n = 0; s.aborted = false; try { f(s); } catch (vpsc::CriticalFailure &) { s.aborted = true; } }
+// the case, unrelated library work, the case again -- for every kind of work
+static void across_library_work(const string &desc, double tol, function<void(Sig &)> f) {
+    static Sig ref, again;
+    for (int w = 0; w < NWORK; w++) {
+        // inside the arena with ascending addresses: the ORDER of addresses is the same in both runs, so a dependence on address order (KF-C20-1)
+        // does not show here -- what shows is state that the work leaves behind in the process (statics, globals, caches)
+        mcx::heap_begin(mcx::HEAP_UP, mcx::REUSE_NONE, 0);
+        plain(f, ref); try { library_work(w); } catch (...) { ctx.count("library_work_aborted"); } plain(f, again); ctx.count("transitions", 2);
+        mcx::heap_end();
+        if (ref.aborted || again.aborted) { if (ref.aborted != again.aborted) ctx.violation("result_depends_on_earlier_unrelated_work", {}, desc, mcx::fmt("assertion only %s [%s]", again.aborted ? "after" : "before", WORKNAME[w])); continue; }
+        bool diff = ref.n != again.n; int at = -1;
+        for (int i = 0; i < ref.n && !diff; i++) { double a = ref.v[i], b = again.v[i]; if (tol == 0 ? (memcmp(&a, &b, sizeof a) != 0 && !(a == b)) : !(fabs(a - b) <= tol)) { diff = true; at = i; } }
+        if (diff) { ctx.violation("result_depends_on_earlier_unrelated_work", {}, desc, (at >= 0 ? mcx::fmt("value #%d %.17g vs %.17g", at, ref.v[at], again.v[at]) : string("different result sizes")) + " after [" + WORKNAME[w] + "]"); break; }
+    }
+}
 
 // ---- VPSC --------------------------------------------------------------------------------
 struct SC { int l, r; double gap; bool eq; };
@@ -126,7 +173,16 @@ static void routing_phase(int G, int k, bool ortho, int params = 0) {
         // cost invariance under the symmetries is claimed for independent connectors; crossing / shared-path penalties couple the connectors of a
         // scene and which of two equally good candidates is rerouted is (legitimately) decided by connector ids
         for (int sk = 1; sk < 8 && params != 3; sk++) { plain([&](Sig &s) { route_scene(sc, eps, ortho, sk, 0, 0, s, true); }, ct); ctx.count("transitions");
-            if (!cbase.aborted && !ct.aborted) for (int i = 0; i < cbase.n; i++) if (!(fabs(cbase.v[i] - ct.v[i]) <= 1e-9)) { ctx.violation("route_cost_not_symmetry_invariant", {}, desc + mcx::fmt(" symmetry #%d", sk), mcx::fmt("connector %d cost %.17g vs %.17g", i, cbase.v[i], ct.v[i])); break; } }
+            if (!cbase.aborted && !ct.aborted) for (int i = 0; i < cbase.n; i++) if (!(fabs(cbase.v[i] - ct.v[i]) <= 1e-9)) {
+                // class: the connector shares an endpoint POSITION with another connector of the scene (coincident endpoint vertices of different
+                // connectors: which of them a visibility edge is attached to depends on the scan order, and the search skips foreign endpoints)
+                vector<string> kc; for (size_t j = 0; j < eps.size(); j++) if ((int)j != i) for (auto &q : {eps[j].first, eps[j].second}) if ((q.x == eps[i].first.x && q.y == eps[i].first.y) || (q.x == eps[i].second.x && q.y == eps[i].second.y)) { if (kc.empty()) kc.push_back("shares_endpoint_position_with_another_connector"); }
+                ctx.violation("route_cost_not_symmetry_invariant", kc, desc + mcx::fmt(" symmetry #%d", sk), mcx::fmt("connector %d cost %.17g vs %.17g", i, cbase.v[i], ct.v[i])); break; } }
+        // ... and every connector ALONE in its own router (no coincident endpoints, no coupling): the clean form of the symmetry clause
+        if (params == 1 || params == 2) for (size_t i = 0; i < eps.size(); i++) { vector<pair<geo::P, geo::P>> one{eps[i]};
+            static Sig ob, ot; plain([&](Sig &s) { route_scene(sc, one, ortho, 0, 0, 0, s, true); }, ob);
+            for (int sk = 1; sk < 8; sk++) { plain([&](Sig &s) { route_scene(sc, one, ortho, sk, 0, 0, s, true); }, ot); ctx.count("transitions");
+                if (!ob.aborted && !ot.aborted && ob.n > 0 && ot.n > 0 && !(fabs(ob.v[0] - ot.v[0]) <= 1e-9)) { ctx.violation("route_cost_not_symmetry_invariant", {"single_connector"}, desc + mcx::fmt(" connector (%lld,%lld)->(%lld,%lld) alone, symmetry #%d", eps[i].first.x, eps[i].first.y, eps[i].second.x, eps[i].second.y, sk), mcx::fmt("cost %.17g vs %.17g", ob.v[0], ot.v[0])); break; } } }
         ctx.done_case();
     } while (mcx::subset_next(idx, alpha.size()) && !ctx.stopped());
 }
@@ -181,10 +237,11 @@ int main(int argc, char **argv) {
     ctx.init(argc, argv);
     bool T = ctx.thorough();
     { Sig s; plain([&](Sig &q) { route_scene({geo::rect(1, 1, 2, 2)}, {{{0, 0}, {3, 3}}}, true, 0, 0, 0, q, false); }, s); }   // warm-up in system mode
-    vpsc_phase(2, 2); vpsc_phase(3, 2); ro_phase(2, 3); ro_phase(3, 2); ro_phase(3, 3);
-    routing_phase(3, 1, false); routing_phase(3, 1, true); routing_phase(3, 2, false); routing_phase(4, 2, true);
+    for (int w = 0; w < NWORK; w++) library_work(w);   // every kind of interleaved work once in system mode (lazily built statics must not live in the arena)
+    g_interleave = true; vpsc_phase(2, 2); g_interleave = false; vpsc_phase(3, 2); g_interleave = true; ro_phase(2, 3); ro_phase(3, 2); g_interleave = T; ro_phase(3, 3);
+    g_interleave = true; routing_phase(3, 1, false); routing_phase(3, 1, true); g_interleave = T; routing_phase(3, 2, false); routing_phase(4, 2, true); g_interleave = false;
     for (int ps = 1; ps <= 3; ps++) { routing_phase(3, 1, true, ps); routing_phase(3, 1, false, ps); routing_phase(3, 2, true, ps); routing_phase(3, 2, false, ps); } g_params = 0;
-    pins_phase(); cola_phase(T ? 1 : 9); hola_phase(3); hola_phase(4);
+    g_interleave = true; pins_phase(); cola_phase(T ? 1 : 9); hola_phase(3); g_interleave = T; hola_phase(4); g_interleave = false;
     if (T) { for (int ps = 1; ps <= 2; ps++) routing_phase(4, 2, true, ps); g_params = 0; vpsc_phase(3, 3); ro_phase(4, 2); routing_phase(4, 1, false); routing_phase(4, 2, false); hola_phase(5); }
     return ctx.finish();
 }
